@@ -37,6 +37,9 @@ def run(ctx):
     e_start_under_live_parent(ctx, t)
     a_action_tracking(ctx, t)
     a_finished_actions_get_no_events(ctx, t)
+    f_main_flow_siblings(ctx, t)
+    f_remove_only_ended(ctx)
+    f_failed_before_start_not_restarted(ctx, t)
     d_cleanup_keeps_reference(ctx, t)
     d_deactivation(ctx, t)
     try:
@@ -81,6 +84,85 @@ def a_finished_actions_get_no_events(ctx, t):
               "process_event is only reached for actions whose status is not FINISHED" if ok else
               "an event is delivered to an action that has already FINISHED: the Start echo of an instant action takes it back to STARTING, it counts as unfinished again and "
               "`Stop...Action` is sent for it when its flow ends - a Stop for an action that finished long ago", line=(leak[0].line if leak else fn.lineno))
+
+
+RT2_ = "nemoguardrails/colang/v2_x/runtime/runtime.py"
+
+
+def f_main_flow_siblings(ctx, t):
+    """`An activated flow is started again whenever its instance ends`: the main flow is created activated, and the runtime starts it again with the next call if it WAITS.
+    _finish_flow and _abort_flow are the two ways an instance ends; both must put the main flow back into the waiting state with a fresh head (sibling agreement) - if only
+    the finishing side does, a main flow that FAILS stays stopped and the bot never answers again (F160)."""
+    n = 0
+    for name in ("_finish_flow", "_abort_flow"):
+        fn = find_function(t, name)
+        if fn is None:
+            raise AnalysisError("%s not found" % name, anchor=SM + "::" + name)
+        n += 1
+        special = [i for i in ast.walk(fn) if isinstance(i, ast.If) and re.search(r"flow_id\s*==\s*['\"]main['\"]", src(i.test))
+                   and any(isinstance(a, ast.Assign) and src(a.targets[0]).endswith(".status") and src(a.value).endswith("WAITING") for st in i.body for a in ast.walk(st))
+                   and any(isinstance(a, ast.Assign) and src(a.targets[0]).endswith(".heads") for st in i.body for a in ast.walk(st))]
+        ok = bool(special)
+        ctx.check("C06.f.main-flow-siblings", SM, name, "the main flow goes back to WAITING with a fresh head", ok,
+                  "an ended main flow is reset to WAITING (new head at the start)" if ok else
+                  "%s has no special case for the main flow: a main flow that ends this way stays %s, process_events does not start it again, and every later event goes unanswered"
+                  % (name, "STOPPED" if "abort" in name else "FINISHED"), line=fn.lineno)
+    ctx.floor("C06.f.main-flow-siblings", SM, "ways a flow instance ends", n, 2)
+
+
+def f_remove_only_ended(ctx):
+    """RemoveFlowsAction deletes the instances and the config of a flow id.  Deleting a RUNNING instance orphans what it started: its child flows and unfinished actions are
+    neither stopped nor owned by anybody afterwards.  Decided: the deletion is not reachable for a flow id one of whose instances is still listening."""
+    if not ctx.tree.exists(RT2_):
+        return
+    t2 = ctx.tree.ast(RT2_)
+    fn = find_function(t2, "_remove_flows_action")
+    if fn is None:
+        raise AnalysisError("_remove_flows_action not found", anchor=RT2_ + "::_remove_flows_action")
+    cfg = CFG(fn)
+    dels = [n for n in cfg.nodes if n.ast is not None and any(
+        (isinstance(x, ast.Delete) and any("flow_states" in src(t_) or "flow_id_states" in src(t_) or "flow_configs" in src(t_) for t_ in x.targets)) or
+        (isinstance(x, ast.Call) and isinstance(x.func, ast.Attribute) and x.func.attr in ("pop",) and re.search(r"flow_states|flow_id_states|flow_configs", src(x.func.value)))
+        for x in walk_no_nested(n.ast))]
+    ctx.floor("C06.f.remove-only-ended", RT2_, "deletions of flow instances / configs in RemoveFlowsAction", len(dels), 1)
+    live = (lambda a: isinstance(a, ast.Call) and ((isinstance(a.func, ast.Name) and a.func.id == "any") or src(a.func) in ("is_listening_flow", "is_active_flow"))
+            and re.search(r"is_listening_flow|is_active_flow", src(a)) is not None)
+    reach = cfg.reachable_under([cfg.entry], {live: True})
+    tested = any(n.kind == "test" and isinstance(n.ast, ast.expr) and any(live(a) for a in ast.walk(n.ast)) for n in cfg.nodes)
+    leak = [n for n in dels if n in reach]
+    ok = tested and not leak
+    ctx.check("C06.f.remove-only-ended", RT2_, "RuntimeV2_x._remove_flows_action", "running instances are not deleted", ok,
+              "a flow id with a listening instance is skipped" if ok else
+              "`%s` is reached also when an instance of the flow is still running: the instance vanishes from the state while the child flows and actions it started keep running "
+              "with no owner (never stopped)" % (first_line(leak[0].ast, 60) if leak else "the deletion"), line=(leak[0].line if leak else fn.lineno))
+
+
+def f_failed_before_start_not_restarted(ctx, t):
+    """An activated flow that is failed BEFORE it reached its first waiting statement must not be restarted (the new instance would be failed the same way: the round never
+    ends).  _advance_head_front has that guard (C10.c.restart-guard); the same holds for every other place that fails a flow which may still be starting: a failing match, a
+    failing action event, a failing internal event.  Decided: each of these calls of _abort_flow is preceded on every path by the guard helper."""
+    guards = {f.name for f in functions(t) if any(isinstance(a, ast.Assign) and src(a.targets[0]).endswith(".new_instance_started") and src(a.value) == "True" for a in ast.walk(f))
+              and "STARTING" in src(f) and f.name not in ("_abort_flow", "_finish_flow", "_advance_head_front")}
+    ctx.floor("C06.f.failed-before-start", SM, "guard helpers (no restart of a flow that has not started)", len(guards), 1)
+    sites = []
+    for name in ("_fail_flow_of_head", "_fail_event_source_flow", "run_to_completion"):
+        fn = find_function(t, name)
+        if fn is None:
+            continue
+        cfg = CFG(fn)
+        calls = [c for c in walk_no_nested(fn) if isinstance(c, ast.Call) and src(c.func) == "_abort_flow"]
+        if name == "run_to_completion":
+            # only the site that fails a flow whose match statement raised (the loop over the failing heads)
+            calls = [c for c in calls if any(isinstance(p_, ast.For) and "fail" in src(p_.iter) for p_ in _anc(c, fn))]
+        for c in calls:
+            gn = [n for n in cfg.nodes if n.ast is not None and any(isinstance(x, ast.Call) and isinstance(x.func, ast.Name) and x.func.id in guards for x in walk_no_nested(n.ast))]
+            ok = bool(gn) and cfg.must_pass(cfg.entry, cfg.node_of(c), gn)
+            sites.append(ok)
+            ctx.check("C06.f.failed-before-start", SM, name, first_line(c, 60), ok,
+                      "the flow is marked as not to be restarted if it has not started yet, before it is failed" if ok else
+                      "`%s` fails a flow that may still be STARTING without the no-restart guard: an activated flow that fails before its first waiting statement is restarted, fails "
+                      "again, ... inside one round" % first_line(c, 50), line=c.lineno)
+    ctx.floor("C06.f.failed-before-start", SM, "places that fail a flow outside _advance_head_front", len(sites), 3)
 
 
 def a_stop_discipline(ctx, t):
